@@ -28,6 +28,22 @@
 (***************************************************************************)
 EXTENDS Integers, Sequences, FiniteSets, TLC
 
+\* "none": the specification.  Any other value selects ONE named wrong reading
+\* of a rule (see the places where Variant is tested); the negative
+\* configurations Gen_SigNames_neg_<Variant>.cfg show that the laws of
+\* Gen_SigNames.tla refute each of them (so the laws are not vacuous).
+\*   "rt-one-ended"        RTMAX-k is counted from RTMIN like RTMIN+k
+\*   "rt-always-rtmin"     a realtime number is always written RTMIN+k
+\*   "any-name"            kill -l N may print any name of N (IOT for 6)
+\*   "status-128"          a signal-terminated command has status 128 + n
+\*   "exit-is-signal-0"    0 / EXIT name a signal for kill -l
+\*   "list-operand-prefix" kill -l accepts SIGNAME operands
+\*   "trap-folds-case"     trap accepts lower-case names and the SIG prefix
+\*   "cluster-first"       -stop is the option s with argument "top"
+\*   "portable-s-number"   kill -s 9 is accepted under the portable option
+\*   "dash-needs-upper"    the obsolete form -name is upper case only
+CONSTANT Variant
+
 (***************************************************************************)
 (* Text.  TLC strings support Len, SubSeq and \o.                          *)
 (***************************************************************************)
@@ -88,7 +104,8 @@ NumOfNamed(P, t) == LET I == {i \in 1..Len(P.names) : P.names[i].n = t} IN
                     IF I = {} THEN -1 ELSE P.names[CHOOSE i \in I : TRUE].v
 
 \* The names POSIX.1-2024 <signal.h> requires, with their default actions:
-\* T terminate, A terminate abnormally (core), I ignore, S stop, C continue.
+\* T abnormal termination, A abnormal termination "with additional actions"
+\* (XSI: a core file MAY be created), I ignore, S stop, C continue.
 PosixTable == <<
   <<"ABRT", "A">>, <<"ALRM", "T">>, <<"BUS", "A">>, <<"CHLD", "I">>, <<"CONT", "C">>, <<"FPE", "A">>,
   <<"HUP", "T">>, <<"ILL", "A">>, <<"INT", "T">>, <<"KILL", "T">>, <<"PIPE", "T">>, <<"QUIT", "A">>,
@@ -108,9 +125,18 @@ KnownNames == <<"ABRT", "ALRM", "BUS", "CHLD", "CLD", "CONT", "EMT", "FPE", "HUP
 \* default action of signal number n: "T" "A" "I" "S" "C", or "?" where
 \* POSIX does not say (names outside <signal.h>)
 DefAct(P, n) ==
-  IF n \in RtNumbers(P) THEN "A"    \* XBD <signal.h>: realtime signals terminate abnormally
+  \* XBD <signal.h>: "The default actions for the realtime signals in the
+  \* range SIGRTMIN to SIGRTMAX shall be to terminate the process abnormally."
+  IF n \in RtNumbers(P) THEN "T"
   ELSE LET I == {i \in 1..Len(PosixTable) : PosixTable[i][1] \in NamesOfNum(P, n)} IN
        IF I = {} THEN "?" ELSE PosixTable[CHOOSE i \in I : TRUE][2]
+\* What a system may report as the effect of the default action: the
+\* additional actions of "A" are optional; for realtime signals the rustdoc of
+\* yash_env::system::virtual::SignalEffect::of promises a core dump where
+\* POSIX asks for plain termination, so both are accepted there.
+EffectAllowed(P, n) ==
+  LET a == DefAct(P, n) IN
+  IF n \in RtNumbers(P) THEN {"T", "A"} ELSE IF a = "A" THEN {"A", "T"} ELSE {a}
 
 (***************************************************************************)
 (* Names -> numbers.  NameNum takes the exact spelling: upper case, no SIG *)
@@ -133,6 +159,7 @@ RtNum(P, t) ==
           IN IF k > RtSpan(P) THEN ErrR
              ELSE IF ~natural THEN (IF k = 0 THEN OpenR ELSE ErrR)
              ELSE IF LeadingZero(d) THEN OpenR
+             ELSE IF Variant = "rt-one-ended" THEN Sig(P.rtmin + k)
              ELSE Sig(IF plus THEN b + k ELSE b - k)
 
 NameNum(P, t) ==
@@ -151,10 +178,11 @@ RtNames(P, n) ==
   ELSE IF n = P.rtmax THEN {"RTMAX"}
   ELSE LET up == n - P.rtmin
            dn == P.rtmax - n
-       IN (IF up <= dn THEN {"RTMIN+" \o ToString(up)} ELSE {}) \cup (IF dn <= up THEN {"RTMAX-" \o ToString(dn)} ELSE {})
+       IN IF Variant = "rt-always-rtmin" THEN {"RTMIN+" \o ToString(up)}
+          ELSE (IF up <= dn THEN {"RTMIN+" \o ToString(up)} ELSE {}) \cup (IF dn <= up THEN {"RTMAX-" \o ToString(dn)} ELSE {})
 
 NameOf(P, n) ==
-  IF ReqNamesOfNum(P, n) # {} THEN ReqNamesOfNum(P, n)
+  IF ReqNamesOfNum(P, n) # {} /\ Variant # "any-name" THEN ReqNamesOfNum(P, n)
   ELSE IF NamesOfNum(P, n) # {} THEN NamesOfNum(P, n)
   ELSE IF n \in RtNumbers(P) THEN RtNames(P, n)
   ELSE {}
@@ -171,11 +199,19 @@ Spellings(P, n) ==
 (* Exit statuses (exit_status.md: 384 + n; rustdoc of                      *)
 (* ExitStatus::to_signal: 384 + n, else 128 + n, else n).                  *)
 (***************************************************************************)
-StatusOfSignal(n) == 384 + n
-\* the signals an integer may stand for as an operand of kill -l
+StatusOfSignal(n) == IF Variant = "status-128" THEN 128 + n ELSE 384 + n
+\* the signals an integer may stand for as an operand of kill -l (kill.md
+\* lists the three readings without an order)
 StatusReadings(P, s) == {n \in Numbers(P) : s = n \/ s = 128 + n \/ s = 384 + n}
 \* exact reading only (what the shell uses to kill itself)
 StatusExact(P, s) == {n \in Numbers(P) : s = 384 + n}
+\* the order the rustdoc of ExitStatus::to_signal promises: 384, "if the
+\* offsetting does not result in a valid signal ... additionally tries with
+\* 128 and 0"; -1: none
+StatusFirst(P, s) ==
+  IF s - 384 \in Numbers(P) THEN s - 384
+  ELSE IF s - 128 \in Numbers(P) THEN s - 128
+  ELSE IF s \in Numbers(P) THEN s ELSE -1
 
 (***************************************************************************)
 (* ParseSigSpec: a signal given as text, by context.                       *)
@@ -202,14 +238,18 @@ NumOrName(P, t, sigok) ==
 ParseKillSig(P, t, po) ==
   LET r == NumOrName(P, t, ~po) IN
   \* portable: the argument of -s is a name or 0
-  IF po /\ IsDigits(t) /\ r.k = "sig" /\ r.n # 0 THEN ErrR ELSE r
+  IF po /\ IsDigits(t) /\ r.k = "sig" /\ r.n # 0 /\ Variant # "portable-s-number" THEN ErrR ELSE r
 
-ParseDash(P, t, po) == NumOrName(P, t, ~po)
+ParseDash(P, t, po) ==
+  IF Variant = "dash-needs-upper" /\ ~IsDigits(t) /\ t # Up(t) THEN ErrR ELSE NumOrName(P, t, ~po)
 
 \* operand of kill -l / -v: the set of numbers it may stand for, or err/open
 \* (returned as [k, ns])
 ListOperand(P, t) ==
   IF Len(t) = 0 THEN [k |-> "err", ns |-> {}]
+  ELSE IF Variant = "exit-is-signal-0" /\ t \in {"0", "EXIT"} THEN [k |-> "num", ns |-> {0}]
+  ELSE IF Variant = "list-operand-prefix" /\ StartsWith(t, "SIG") /\ NameNum(P, Tl(t, 4)).k = "sig"
+    THEN [k |-> "name", ns |-> {NameNum(P, Tl(t, 4)).n}]
   ELSE IF IsDigits(t) THEN
     IF LeadingZero(t) THEN [k |-> "open", ns |-> {}]
     ELSE LET ns == StatusReadings(P, DecVal(t)) IN
@@ -231,6 +271,7 @@ ParseTrapCond(P, t) ==
     ELSE IF DecVal(t) = 0 THEN ExitR
     ELSE IF DecVal(t) \in Numbers(P) THEN Sig(DecVal(t)) ELSE ErrR
   ELSE IF IsSigned(t) THEN (IF Ch(t, 1) = "-" /\ DecVal(Tl(t, 2)) > 0 THEN ErrR ELSE OpenR)
+  ELSE IF Variant = "trap-folds-case" THEN NumOrName(P, t, TRUE)
   ELSE NameNum(P, t)
 
 ParseSigSpec(P, t, ctx, po) ==
@@ -328,6 +369,8 @@ Cluster(P, po, body, hasnext, next, st) ==
               (IF po THEN [st EXCEPT !.res = "err"]                      \* attached argument rejected under portable
                ELSE WithSig(st, ParseKillSig(P, rest, po), 1))
             ELSE IF ~hasnext THEN [st EXCEPT !.res = "err"]
+            \* a process ID in the place of the signal: a number the model does not know
+            ELSE IF StartsWith(next, "@") THEN [st EXCEPT !.res = "open"]
             ELSE WithSig(st, ParseKillSig(P, next, po), 2)
           ELSE [st EXCEPT !.res = "err"]
 
@@ -341,7 +384,9 @@ Scan(P, po, args, st) ==
              w == ParseDash(P, body, po)
              hasnext == st.i < Len(args)
              cl == Cluster(P, po, body, hasnext, IF hasnext THEN Shape(args[st.i + 1]) ELSE "", [st EXCEPT !.used = 1])
-         IN IF w.k = "open" THEN [st EXCEPT !.res = "open"]
+         IN IF Variant = "cluster-first" /\ Ch(body, 1) \in {"l", "v", "s", "n"}
+              THEN Scan(P, po, args, [cl EXCEPT !.i = @ + cl.used, !.used = 1])
+            ELSE IF w.k = "open" THEN [st EXCEPT !.res = "open"]
             ELSE IF w.k = "sig" THEN
               \* also a well-formed option cluster with another meaning: ambiguous
               (IF cl.res = "go" /\ (cl.list # st.list \/ cl.verb # st.verb \/ cl.sig # w.n \/ cl.used # 1)
@@ -390,23 +435,44 @@ KillCmd(P, po, args) ==
             IN KOut("send", sig, UNION {TargetVictims(ops[i]) : i \in 1..Len(ops)}, ~bad /\ ~none, bad, <<>>, FALSE)
 
 (***************************************************************************)
-(* trap: only the condition layer.  w = <<form>> \o conditions, form "-p"  *)
-(* (print), "-" (default) or "" (ignore).                                  *)
-(*   k  "ok" | "err" | "open";  conds: the canonical names allowed per     *)
-(*   condition, as printed by `trap -p`.                                   *)
+(* trap: only the condition layer.  w are the words after `trap`:          *)
+(*   -p cond...        print                                               *)
+(*   action cond...    action "-" (default), "" (ignore) or a command      *)
+(*   n cond...         XCU trap: "If the first operand is an unsigned      *)
+(*                     decimal integer, the shell shall treat all operands *)
+(*                     as conditions, and shall reset each condition to    *)
+(*                     the default value" (trap.md: "The action may be     *)
+(*                     omitted if the first condition is a non-negative    *)
+(*                     decimal integer")                                   *)
+(*   k  "ok" | "err" | "open";  cw: the condition words (also what is      *)
+(*   handed to `trap -p` for the read-back); conds: the canonical names    *)
+(*   allowed per condition, as printed by `trap -p`; act: the action as    *)
+(*   `trap -p` prints it afterwards.                                       *)
 (***************************************************************************)
 CondNames(P, r) == IF r.k = "exit" THEN {"EXIT"} ELSE NameOf(P, r.n)
+\* command actions whose quoted form is the word itself
+PlainActions == {"true", "false", "exit"}
+TrapR(k, cw, conds, act) == [k |-> k, cw |-> cw, conds |-> conds, act |-> act]
 TrapCmd(P, w) ==
-  LET form == w[1]
-      cs == [i \in 1..(Len(w) - 1) |-> ParseTrapCond(P, w[i + 1])]
+  LET print == Len(w) >= 1 /\ w[1] = "-p"
+      allconds == Len(w) >= 1 /\ IsDigits(w[1])
+      cw == IF print THEN Tail(w) ELSE IF allconds THEN w ELSE IF Len(w) >= 1 THEN Tail(w) ELSE <<>>
+      action == IF print \/ Len(w) = 0 THEN "" ELSE IF allconds THEN "-" ELSE w[1]
+      act == IF action = "" THEN "''" ELSE action
+      cs == [i \in 1..Len(cw) |-> ParseTrapCond(P, cw[i])]
       kill9 == {NumOfNamed(P, "KILL"), NumOfNamed(P, "STOP")}
-  IN IF Len(w) < 2 THEN [k |-> "open", conds |-> <<>>]
-     ELSE IF \E i \in 1..Len(cs) : cs[i].k = "err" THEN [k |-> "err", conds |-> <<>>]
-     ELSE IF \E i \in 1..Len(cs) : cs[i].k = "open" THEN [k |-> "open", conds |-> <<>>]
+      Open == TrapR("open", cw, <<>>, "")
+      Err == TrapR("err", cw, <<>>, "")
+  IN IF Len(cw) = 0 THEN Open                 \* listings without operands: family trapall; action without condition: nobody says
+     \* other words that start with a hyphen are options of the built-in
+     ELSE IF ~print /\ ~allconds /\ Len(action) > 1 /\ Ch(action, 1) \in {"-", "+"} THEN Open
+     ELSE IF ~print /\ ~allconds /\ action \notin ({"-", ""} \cup PlainActions) THEN Open
+     ELSE IF \E i \in 1..Len(cs) : cs[i].k = "err" THEN Err
+     ELSE IF \E i \in 1..Len(cs) : cs[i].k = "open" THEN Open
      \* trap.md: traps cannot be set to KILL or STOP; resetting them: POSIX undefined
-     ELSE IF form # "-p" /\ \E i \in 1..Len(cs) : cs[i].k = "sig" /\ cs[i].n \in kill9
-       THEN (IF form = "" THEN [k |-> "err", conds |-> <<>>] ELSE [k |-> "open", conds |-> <<>>])
-     ELSE [k |-> "ok", conds |-> [i \in 1..Len(cs) |-> CondNames(P, cs[i])]]
+     ELSE IF ~print /\ \E i \in 1..Len(cs) : cs[i].k = "sig" /\ cs[i].n \in kill9
+       THEN (IF action = "-" THEN Open ELSE Err)
+     ELSE TrapR("ok", cw, [i \in 1..Len(cs) |-> CondNames(P, cs[i])], act)
 
 \* a line of `trap -p cond`: trap -- <action> <name>
 TrapLineOK(line, names) == Len(line) = 4 /\ line[1] = "trap" /\ line[2] = "--" /\ line[4] \in names
@@ -457,7 +523,8 @@ StopNum(P) == NumOfNamed(P, "STOP")
 VictimOK(P, rv, sig, hit) ==
   IF ~hit \/ sig = 0 THEN rv.pend = <<>> /\ rv.state = "run"
   ELSE IF sig = KillNum(P) THEN rv.state = "sig:" \o ToString(sig)
-  ELSE IF sig = StopNum(P) THEN rv.state = "stop:" \o ToString(sig) /\ rv.pend = <<>>
+  \* (a second STOP sent to a process that is already stopped may stay pending)
+  ELSE IF sig = StopNum(P) THEN rv.state = "stop:" \o ToString(sig) /\ rv.pend \in {<<>>, <<sig>>}
   ELSE rv.pend = <<sig>> /\ rv.state = "run"
 Untouched(o) == \A i \in 1..Len(o.recv) : o.recv[i].pend = <<>> /\ o.recv[i].state = "run"
 
@@ -483,7 +550,8 @@ SelfConforms(P, c, o) ==
   IF e.k = "open" THEN "open"
   ELSE IF ~o.done THEN Rej("not-completed")
   ELSE IF e.k = "err" THEN First(<< <<o.st # 0, "status">>, <<o.err, "stderr">>, <<o.out = <<>>, "trap-ran">> >>)
-  ELSE IF e.k # "send" \/ e.tg # {"ME"} \/ ~e.st0 THEN "bad-input"
+  ELSE IF e.k # "send" \/ e.rcvopen \/ ~e.st0 THEN "open"     \* a listing; another operand that is no process
+  ELSE IF e.tg # {"ME"} THEN "bad-input"
   ELSE IF e.sig \in {KillNum(P), StopNum(P)} THEN "open"
   ELSE First(<< <<o.st = 0, "status">>, <<~o.err, "stderr">>,
                 <<o.out = (IF e.sig = 0 THEN <<>> ELSE << <<"T" \o ToString(e.sig)>> >>), "trap-ran">> >>)
@@ -493,7 +561,8 @@ DieConforms(P, c, o) ==
   IF e.k = "open" THEN "open"
   ELSE IF ~o.done THEN Rej("not-completed")
   ELSE IF e.k = "err" THEN First(<< <<o.st # 0 /\ o.st < 128, "status">>, <<o.err, "stderr">> >>)
-  ELSE IF e.k # "send" \/ e.tg # {"ME"} \/ ~e.st0 THEN "bad-input"
+  ELSE IF e.k # "send" \/ e.rcvopen \/ ~e.st0 THEN "open"
+  ELSE IF e.tg # {"ME"} THEN "bad-input"
   ELSE LET act == IF e.sig = 0 THEN "I" ELSE DefAct(P, e.sig) IN
        IF act \in {"I", "C"} THEN First(<< <<o.st = 0, "status">>, <<~o.err, "stderr">> >>)
        ELSE IF act \in {"T", "A"} THEN
@@ -509,9 +578,9 @@ TrapConforms(P, c, o) ==
   ELSE IF c.w[1] = "-p" THEN
     First(<< <<o.st = 0, "status">>, <<~o.err, "stderr">>,
              <<Len(o.out) = Len(e.conds) /\ \A i \in 1..Len(e.conds) : TrapLineOK(o.out[i], e.conds[i]), "stdout">> >>)
-  ELSE LET act == IF c.w[1] = "-" THEN "-" ELSE "''" IN
+  ELSE
     First(<< <<o.st = 0, "status">>, <<~o.err, "stderr">>, <<o.out = <<>>, "stdout">>, <<o.st2 = 0, "status2">>,
-             <<Len(o.out2) = Len(e.conds) /\ \A i \in 1..Len(e.conds) : TrapLineOK(o.out2[i], e.conds[i]) /\ o.out2[i][3] = act, "read-back">> >>)
+             <<Len(o.out2) = Len(e.conds) /\ \A i \in 1..Len(e.conds) : TrapLineOK(o.out2[i], e.conds[i]) /\ o.out2[i][3] = e.act, "read-back">> >>)
 
 \* Name::from_str: system independent
 FromStrNames(t) ==
@@ -547,7 +616,8 @@ ApiConforms(P, c, o) ==
          IF r.k = "open" \/ IsSigned(t) \/ (IsDigits(t) /\ DecVal(t) = Huge) THEN "open" ELSE First(<< <<o.r = (IF r.k = "sig" THEN r.n ELSE -1000), "number">> >>))
     [] op \in {"tosignal0", "tosignal1"} ->
         (LET rd == IF op = "tosignal1" THEN StatusExact(P, n) ELSE StatusReadings(P, n) IN
-         First(<< <<IF rd = {} THEN o.r = -1 /\ o.s = <<>> ELSE o.r \in rd /\ Len(o.s) = 1 /\ o.s[1] \in NameOf(P, o.r), "signal-of-status">> >>))
+         First(<< <<IF rd = {} THEN o.r = -1 /\ o.s = <<>> ELSE o.r \in rd /\ Len(o.s) = 1 /\ o.s[1] \in NameOf(P, o.r), "signal-of-status">>,
+                  <<op = "tosignal1" \/ o.r = StatusFirst(P, n), "order-of-readings">> >>))
     [] op = "fromsignal" -> (IF n \notin Numbers(P) THEN "bad-input" ELSE First(<< <<o.r = StatusOfSignal(n), "status">> >>))
     [] op = "conditer" ->
         (IF ~(Len(o.out) >= 1 /\ \A i \in 1..Len(o.out) : Len(o.out[i]) = 2 /\ IsDigits(o.out[i][1])) THEN Rej("shape")
@@ -564,7 +634,7 @@ ApiConforms(P, c, o) ==
     [] op = "nameiter" -> First(<< <<o.s = KnownNames \o <<"RTMIN", "RTMAX">>, "order">> >>)
     [] op = "effect" ->
         (IF n \notin Numbers(P) THEN "bad-input" ELSE IF DefAct(P, n) = "?" THEN "open"
-         ELSE First(<< <<o.s = <<DefAct(P, n)>>, "default-action">> >>))
+         ELSE First(<< <<Len(o.s) = 1 /\ o.s[1] \in EffectAllowed(P, n), "default-action">> >>))
     [] OTHER -> "bad-input"
 
 Conforms(P, c, o) ==
@@ -576,6 +646,21 @@ Conforms(P, c, o) ==
                              ELSE First(<< <<o.st = 0, "status">>, <<~o.err, "stderr">>, <<TrapAllOK(P, o.out), "stdout">> >>))
     [] c.fam = "api" -> ApiConforms(P, c, o)
     [] OTHER -> "bad-input"
+
+\* The shape of a kill command line in one word, for the keys of reports:
+\*   "unsupported-signal-number"  well-formed, but the number is not one kill() of the system accepts
+\*   "dash-name-after-l-or-v"     an obsolete-form argument -name whose name starts with the letter l or v
+\*   ""                           anything else
+KillShape(P, po, args) ==
+  LET st == Scan(P, po, args, St0)
+      ops == IF st.i > Len(args) THEN <<>> ELSE SubSeq(args, st.i, Len(args))
+      sig == IF st.cnt = 0 THEN NumOfNamed(P, "TERM") ELSE st.sig
+      lv(a) == LET x == Shape(a) IN
+               Len(x) > 2 /\ Ch(x, 1) = "-" /\ Ch(x, 2) \in {"l", "v"} /\ ~IsDigits(Tl(x, 2)) /\ ParseDash(P, Tl(x, 2), po).k = "sig"
+  IN IF \E i \in 1..(IF st.i - 1 > Len(args) THEN Len(args) ELSE st.i - 1) : lv(args[i]) THEN "dash-name-after-l-or-v"
+     ELSE IF st.res = "go" /\ st.cnt <= 1 /\ ~st.list /\ ~st.verb /\ Len(ops) > 0 /\ sig \notin Kacc(P) THEN "unsupported-signal-number"
+     ELSE ""
+CaseShape(P, c) == IF c.fam \in {"send", "list", "self", "die"} THEN KillShape(P, c.po, c.w) ELSE ""
 
 \* what the specification expects of a case, in one word (for the tallies)
 ExpectKind(P, c) ==
